@@ -10,6 +10,7 @@
 //   T clk pid                    Actor::on_termination signal
 //   B clk pid k daemon killtime  the body of an incarnation starts (is_daemon(), get_kill_time() as the API reports them)
 //   Q clk pid op# name args..    just before an API call        R clk pid op# name result..   just after it returned
+//   r clk pid op# suspend target rem   remaining flops of the exec the target waits for, read after suspend() returned (-1: none)
 //   M clk pid op#                just before Exec::start() of an exec / execd op
 //   X clk pid op# reason         op skipped by the harness (target never created / dead / self)
 //   g clk pid cb                 on_exit registration about to be issued for pid      G clk pid cb   registration returned
@@ -166,7 +167,9 @@ static void body(int k)
       }
       printf("Q %.17g %ld %zu suspend %ld\n", now(), pid, i, t->get_pid());
       t->suspend();
-      printf("R %.17g %ld %zu suspend %ld %.17g\n", now(), pid, i, t->get_pid(), remaining_of(t->get_pid()));
+      printf("R %.17g %ld %zu suspend %ld\n", now(), pid, i, t->get_pid()); // at once: reading the remaining work may take a simcall
+      double rem = remaining_of(t->get_pid());
+      printf("r %.17g %ld %zu suspend %ld %.17g\n", now(), pid, i, t->get_pid(), rem);
     } else if (n == "resume") {
       auto t = target(0);
       if (t == nullptr || t.get() == self.get()) {
